@@ -82,37 +82,37 @@ def run(rep):
         if fo is None: rep.error('C16: cannot resolve the installed cache function'); break
         fnode = Exec.func_ast(Exec.__new__(Exec), fo)
         for case, kwitems in (('no_optimization', []), ('caller_optimization', [('optimization', VObj(z3.Const('caller_opt', M.Obj)))])):
-            seen = []
             def m_orig(ex2, s2, f, args, kw, where):
-                seen.append((args, kw, s2)); return [(s2, VObj(M.fresh('cache_path')))]
+                return [(s2.ev('orig_call', args, kw, s2), VObj(M.fresh('cache_path')))]
             ex2 = Exec(uni, dict(fo.__globals__), call_model={ORIG: m_orig}, name='cache_fn'); ex2.fstr_eval_calls = True
             s2, kwref = ex2.new_dict(s.with_env(()), kwitems)
             env = {fnode.args.vararg.arg: symx.VTup((VObj(z3.Const('path', M.Obj)),)), fnode.args.kwarg.arg: kwref}
             for ko, kd in zip(fnode.args.kwonlyargs, fnode.args.kw_defaults):
                 env[ko.arg] = bound.get(ko.arg, ex2.eval(kd, St())[0][1] if kd is not None else None)
             res = ex2.exec_block(fnode.body, s2.with_env(tuple(env.items())))
-            if len(seen) != 1: rep.add(f'C16.cache_from_source.post.delegates_once.{case}', 'refuted', backend='structural', where=f'{len(seen)} calls of the original cache_from_source'); continue
-            args, kw, s3 = seen[0]
-            # **kwargs passed through: find the dict the call received
-            kwd = None
-            for k_, v_ in (kw if isinstance(kw, tuple) else tuple(kw.items())):
-                if k_ is None and isinstance(v_, VDictRef): kwd = dict(s3.hget(('dict', v_.rid), ()))
-            opt = (kwd or {}).get('optimization')
-            parts = list(opt.parts) if isinstance(opt, VFStr) else ([opt] if opt is not None else [])
-            consts = [p.o for p in parts if isinstance(p, VPy) and isinstance(p.o, str)]
-            marker_ok = any(c for c in consts if c)        # a non-empty constant part: the beartype marker
-            rep.add(f'C16.cache_from_source.post.marker.{case}', 'proved' if marker_ok else 'refuted', backend='structural',
-                    where=f'optimization passed on = {[getattr(p, "o", "<expr>") for p in parts]}: contains a non-empty beartype marker, so hooked and unhooked cache files differ')
-            if case == 'caller_optimization':
-                first_ok = bool(parts) and isinstance(parts[0], VObj) and parts[0].t.eq(z3.Const('caller_opt', M.Obj))
-                rep.add('C16.cache_from_source.post.keeps_caller_optimization', 'proved' if first_ok else 'refuted', backend='structural', where="the caller's own optimization marker is kept (prefix)")
-            # dependencies of the marker on the configuration
-            deps = set()
-            for p in parts:
-                if isinstance(p, (VObj, VSlice, VFStr)):
-                    t = ex2.obj(p); deps |= conf_deps(t, CONF)
-            deps_all.append(deps)
-    return deps_all[0] if deps_all else set()
+            for qi, (k3, s3e, v3) in enumerate(res):
+                seen = [e for e in s3e.events if e[0] == 'orig_call']
+                if len(seen) != 1 or k3 != 'return':
+                    rep.add(f'C16.cache_from_source.post.delegates_once.{case}.path{qi}', 'refuted', backend='structural', where=f'{len(seen)} calls of the original cache_from_source, completion {k3}'); continue
+                _, args, kw, s3 = seen[0]
+                kwd = None
+                for k_, v_ in (kw if isinstance(kw, tuple) else tuple(kw.items())):
+                    if k_ is None and isinstance(v_, VDictRef): kwd = dict(s3.hget(('dict', v_.rid), ()))
+                opt = (kwd or {}).get('optimization')
+                parts = list(opt.parts) if isinstance(opt, VFStr) else ([opt] if opt is not None else [])
+                consts = [p.o for p in parts if isinstance(p, VPy) and isinstance(p.o, str)]
+                marker_ok = any(c for c in consts if c)        # a non-empty constant part: the beartype marker
+                rep.add(f'C16.cache_from_source.post.marker.{case}.path{qi}', 'proved' if marker_ok else 'refuted', backend='structural',
+                        where=f'optimization passed on = {[getattr(p, "o", "<expr>") for p in parts]}: must contain a non-empty beartype marker, so that hooked and unhooked cache files differ')
+                if case == 'caller_optimization':
+                    first_ok = bool(parts) and isinstance(parts[0], VObj) and parts[0].t.eq(z3.Const('caller_opt', M.Obj))
+                    rep.add(f'C16.cache_from_source.post.keeps_caller_optimization.path{qi}', 'proved' if first_ok else 'refuted', backend='structural', where="the caller's own optimization marker is kept (prefix)")
+                deps = set()
+                for p in parts:
+                    if isinstance(p, (VObj, VSlice, VFStr)):
+                        t = ex2.obj(p); deps |= conf_deps(t, CONF)
+                deps_all.append(deps)
+    return set.intersection(*deps_all) if deps_all else set()
 
 def conf_deps(t, CONF):
     """which parts of the configuration does term t depend on: {'WHOLE'} if the configuration object itself flows in (repr/hash of it),
